@@ -82,7 +82,6 @@ def D(env):
     d = env.lib.dll
     if not env.cache.get("c19_init"):
         d.vf_c19_scratch_create.restype = c_void_p
-        d.vf_c19_scratch_alloc_size.restype = c_size_t
         d.vf_c19_gens_n.restype = c_size_t
         d.secp256k1_bppp_generators_create.restype = c_void_p
         d.secp256k1_bppp_generators_parse.restype = c_void_p
@@ -187,7 +186,14 @@ def mkvec(spec, n):
 @st.composite
 def setup_case(draw, pairs):
     gl, hl = draw(pairs)
-    return {"gl": gl, "hl": hl, "n": draw(vec_spec), "l": draw(vec_spec), "c": draw(vec_spec), "rho": draw(rho_st),
+    nspec, lspec = draw(vec_spec), draw(vec_spec)
+    # jointly degenerate witnesses: all-zero (commitment and every round point are the point at infinity), n = 0 (proof independent of rho)
+    joint = draw(st.sampled_from(["indep"] * 9 + ["all_zero", "all_zero", "n_zero"]))
+    if joint != "indep":
+        nspec = {"mode": "zero", "seed": nspec["seed"], "over": []}
+    if joint == "all_zero":
+        lspec = {"mode": "zero", "seed": lspec["seed"], "over": []}
+    return {"gl": gl, "hl": hl, "n": nspec, "l": lspec, "c": draw(vec_spec), "rho": draw(rho_st),
             "prefix": draw(prefix_st), "tagged": draw(st.booleans()),
             "gens": draw(st.sampled_from(["std", "std", "std", "rev", "neg"]))}
 
@@ -274,7 +280,6 @@ def run_honest(env, case):
         r, proof, plen = lib_prove(env, big if case["pscratch"] else None, I.g, I.prefix, I.tagged, I.rho, I.nv, I.lv, I.cv, case["extra_cap"])
         env.require(r == 1, "norm-argument prover failed", pair=(gl, hl))
         env.require(plen == 65 * I.rounds + 64, "prover reported proof length %d, expected %d" % (plen, 65 * I.rounds + 64))
-        env.require(D(env).vf_c19_scratch_alloc_size(big) == 0, "prover/committer left allocations on the scratch space")
         v = lib_verify(env, big, I.g, proof, I.prefix, I.tagged, I.rho, gl, I.cv, c33)
         env.require(v == 1, "honest norm-argument proof does not verify against its commitment", pair=(gl, hl), proof=proof.hex()[:400])
         ok, why = B.verify_ex(proof, I.absorbed, I.rho, I.pts, gl, I.cv, C)
@@ -289,15 +294,14 @@ def run_honest(env, case):
             s = scratch_create(env, sz)
             v1 = lib_verify(env, s, I.g, proof, I.prefix, I.tagged, I.rho, gl, I.cv, c33)
             v2 = lib_verify(env, s, I.g, proof, I.prefix, I.tagged, I.rho, gl, I.cv, c33)
-            left = D(env).vf_c19_scratch_alloc_size(s)
-            scratch_destroy(env, s)
+            scratch_destroy(env, s)          # VERIFY builds: the library asserts here that every checkpoint was applied
             env.require(v1 in (0, 1), "verify returned %d" % v1)
             env.require(v1 == v2, "verify gives %d then %d with the same arguments and scratch space (size %d)" % (v1, v2, sz))
-            env.require(left == 0, "verify left %d bytes allocated on the scratch space (size %d)" % (left, sz))
             if v1 == 1:
                 seen_ok = sz if seen_ok is None else seen_ok
             else:
-                env.require(seen_ok is None, "verify fails with scratch size %d although it succeeded with the smaller size %d" % (sz, seen_ok))
+                if seen_ok is not None:
+                    env.fail("verify fails with scratch size %d although it succeeded with the smaller size %d" % (sz, seen_ok))
             classes.append("scratch_ok" if v1 else "scratch_fail")
         env.require(seen_ok is not None, "honest proof rejected with a %d-byte scratch space" % LARGE)
         # a wrong proof must stay rejected for every scratch size (fail closed is not "accept")
@@ -318,7 +322,7 @@ def run_honest(env, case):
 
 # ------------------------------------------------------------------ (b) candidate strings
 MUT_KINDS = ["bitflip", "bitflip", "signbyte", "signbits", "inf_sign", "inf_sign", "inf_ok", "x_ge_p", "x_offcurve", "x_valid", "n_ge", "l_ge", "n_set", "l_set",
-             "trunc", "extend", "extend", "swap_halves", "g_len", "c_len", "gens_count", "swap_sizes", "rho", "rho", "rho_zero", "prefix", "commit", "cvec", "gens_swap"]
+             "trunc", "extend", "extend", "swap_halves", "g_len", "c_len", "gens_count", "swap_sizes", "rho", "rho", "rho_zero", "prefix", "commit", "cvec", "gens_swap", "nonpow2_attack", "nonpow2_attack"]
 
 
 @st.composite
@@ -445,6 +449,23 @@ def apply_mut(I, inp, m):
         cnt = len(inp["pts"])
         new = max(0, [cnt - 1, cnt + 1, 1, 2 * cnt, cnt + 2, cnt // 2][a % 6])
         o["pts"] = (list(inp["pts"]) + B.generators(new + cnt)[cnt:])[:new]
+    elif k == "nonpow2_attack":
+        # declared |c| not a power of two (3, 5, 6, 7, ...) with everything else consistent, and the commitment solved for the reading
+        # "missing generators are infinity": the specified verdict is REJECT (non-power-of-two), a verifier without that check accepts
+        gl, hl = inp["g_len"], len(inp["cv"])
+        cand = [h for h in (3, 5, 6, 7, 9, 12, 15, 24, 33, 48, 63) if (1 << h.bit_length()) <= gl]
+        if cand and B.is_pow2(gl) and len(inp["pts"]) == gl + hl:
+            nh = cand[a % len(cand)]
+            o["cv"] = (list(inp["cv"]) + [1 + (b + i) % 5 for i in range(nh)])[:nh]
+            H_ = list(inp["pts"][gl:])
+            H_ = (H_ + [g for g in B.generators(gl + hl + nh) if g not in inp["pts"]])[:nh]
+            o["pts"] = list(inp["pts"][:gl]) + H_
+            p = bytearray(fit_rounds(bytes(p), rounds, B.ilog2(gl)))
+            try:
+                o["C"] = B.solve_commitment(bytes(p), B.transcript_prefix(inp["prefix"], inp["tagged"]), inp["rho"], o["pts"], gl, o["cv"], pad_l=True)
+                cls.append("nonpow2_attack_built")
+            except ValueError:
+                pass
     elif k == "swap_sizes":
         gl, hl = inp["g_len"], len(inp["cv"])
         o["g_len"] = hl
@@ -511,7 +532,6 @@ def run_strings(env, case):
                     "norm_product_verify returned %d, the specification says %d (%s) [%s]" % (got, 1 if exp else 0, why, label),
                     proof=inp["proof"].hex()[:600], rho=i2b(inp["rho"]).hex(), g_len=inp["g_len"], c_len=len(inp["cv"]), n_gens=len(inp["pts"]),
                     commit=ext(inp["C"]).hex())
-        env.require(D(env).vf_c19_scratch_alloc_size(big) == 0, "verify left allocations on the scratch space [%s]" % label)
         return exp, why
 
     try:
@@ -537,7 +557,7 @@ def run_strings(env, case):
             classes += cls
             classes.append("mut:" + m["kind"])
             resolved = False
-            if m["resolve"]:
+            if m["resolve"] and m["kind"] != "nonpow2_attack":
                 try:
                     inp["C"] = B.solve_commitment(inp["proof"], B.transcript_prefix(inp["prefix"], inp["tagged"]), inp["rho"], inp["pts"], inp["g_len"], inp["cv"])
                     resolved = True
@@ -835,16 +855,16 @@ _Q = {"quick": ["prod", "vsan"], "thorough": ["prod", "vsan"]}
 TESTS = [
     Test("honest", honest_case, run_honest, quick=420, thorough=9000, cfgs=_Q,
          must_cover=["pair=%d,%d" % p for p in PAIRS_QUICK] + ["scratch_ok", "scratch_fail", "pscratch", "pscratch_null", "n:zero", "n:edge", "commit_inf", "all_points_inf",
-                                                                "mu_free", "tagged", "untagged", "gens:rev"]),
+                                                                "mu_free", "tagged", "untagged", "gens:rev"], max_workers=8),
     Test("strings", strings_case, run_strings, quick=900, thorough=30000, cfgs=_Q,
          must_cover=["base:lib", "base:ref", "base:solve", "accept_base", "accept_resolved", "accept_mutated", "reject:length", "reject:not_pow2", "reject:gen_count",
                      "reject:rho_zero", "reject:scalar_range", "reject:point", "reject:equation", "reject:zero_len", "s_plus_n_twin", "rho_zero_on_zero_n",
-                     "inf_sign_on_all_inf", "declared_bad", "declared_pow2"] + ["mut:" + k for k in sorted(set(MUT_KINDS))]),
-    Test("flips", flips_enum, run_flips, kind="enum", cfgs=_Q, must_cover=["flips_rejected"]),
+                     "inf_sign_on_all_inf", "declared_bad", "declared_pow2", "nonpow2_attack_built"] + ["mut:" + k for k in sorted(set(MUT_KINDS))], max_workers=12),
+    Test("flips", flips_enum, run_flips, kind="enum", cfgs=_Q, must_cover=["flips_rejected"], max_workers=6),
     Test("codec", codec_case, run_codec, quick=4000, thorough=60000, cfgs=_Q, must_cover=["sign>3", "inf_sign_set", "inf_ok", "both_valid", "some_invalid", "x:ge_p", "x:off",
-                                                                                           "x:p_plus_on"]),
-    Test("challenge", challenge_case, run_challenge, quick=1500, thorough=20000, cfgs=_Q, must_cover=["tagged", "plain", "idx0", "idx>0"]),
-    Test("gens", gens_case, run_gens, quick=260, thorough=4000, cfgs=_Q, must_cover=["n=0", "n=1", "n=256", "k>0"]),
+                                                                                           "x:p_plus_on"], max_workers=2),
+    Test("challenge", challenge_case, run_challenge, quick=1500, thorough=20000, cfgs=_Q, must_cover=["tagged", "plain", "idx0", "idx>0"], max_workers=1),
+    Test("gens", gens_case, run_gens, quick=260, thorough=4000, cfgs=_Q, must_cover=["n=0", "n=1", "n=256", "k>0"], max_workers=2),
     Test("gens_parse", gparse_case, run_gparse, quick=700, thorough=12000, cfgs=_Q,
-         must_cover=["accept", "reject_len", "reject_point", "every_position"] + ["kind:" + k for k in sorted(set(GP_KINDS))]),
+         must_cover=["accept", "reject_len", "reject_point", "every_position"] + ["kind:" + k for k in sorted(set(GP_KINDS))], max_workers=2),
 ]
